@@ -1,6 +1,7 @@
 //! C04 — cell access is bounds-safe, endian-correct and local.
 //! Model: a Vec<u8>, annotation maps and two cursors; every call's result and the full state
 //! afterwards are compared.
+use crate::engine::panics;
 use crate::engine::prop::{Cx, Mix64, Prop, Tier};
 use crate::gen::archive::observe_step;
 use crate::gen::strings::archive_string;
@@ -92,13 +93,18 @@ pub enum Op {
     WWriteString(Option<String>),
     WWritePointer(Option<u32>),
     WWriteLabel(String),
+    // c-strings are write-only until serialization: their effect is observed through the positional twin (see `run`)
+    WriteCString(A, String),
+    WWriteCString(String),
+    /// write_pointer(a, Some(v)) where v is the u32 the cell currently holds - the state every pointer cell of a parsed file is in
+    WritePointerAsStored(A),
 }
 impl Op {
     fn is_reader(&self) -> bool {
         matches!(self, Op::RSeek(_) | Op::RSkip(_) | Op::RRead(_) | Op::RReadBytes(_) | Op::RReadString | Op::RReadPointer | Op::RReadCString | Op::RReadLabel(_) | Op::RReadLabels)
     }
     fn is_writer(&self) -> bool {
-        matches!(self, Op::WSeek(_) | Op::WSkip(_) | Op::WWrite(..) | Op::WWriteBytes(_) | Op::WWriteString(_) | Op::WWritePointer(_) | Op::WWriteLabel(_))
+        matches!(self, Op::WSeek(_) | Op::WSkip(_) | Op::WWrite(..) | Op::WWriteBytes(_) | Op::WWriteString(_) | Op::WWritePointer(_) | Op::WWriteLabel(_) | Op::WWriteCString(_))
     }
 }
 
@@ -119,6 +125,37 @@ struct Model {
     labels: BTreeMap<usize, Vec<String>>,
     rpos: usize,
     wpos: usize,
+    /// every successful annotation mutation as the positional call that is claimed to be equivalent
+    mirror: Vec<MOp>,
+    cstring_writes: usize,
+}
+
+#[derive(Clone, Debug)]
+enum MOp {
+    Str(usize, Option<String>),
+    Ptr(usize, Option<usize>),
+    Label(usize, String),
+    Labels(usize, Vec<String>),
+    DelStr(usize),
+    DelPtr(usize),
+    DelLabels(usize),
+    DelLabel(usize, usize),
+    CStr(usize, String),
+}
+impl MOp {
+    fn apply(&self, a: &mut BinArchive) -> R<()> {
+        match self {
+            MOp::Str(ad, s) => a.write_string(*ad, s.as_deref()),
+            MOp::Ptr(ad, v) => a.write_pointer(*ad, *v),
+            MOp::Label(ad, s) => a.write_label(*ad, s),
+            MOp::Labels(ad, v) => a.write_labels(*ad, v.clone()),
+            MOp::DelStr(ad) => a.delete_string(*ad),
+            MOp::DelPtr(ad) => a.delete_pointer(*ad),
+            MOp::DelLabels(ad) => a.delete_labels(*ad),
+            MOp::DelLabel(ad, i) => a.delete_label(*ad, *i),
+            MOp::CStr(ad, s) => a.write_c_string(*ad, s.clone()),
+        }
+    }
 }
 
 fn in_range(a: usize, w: usize, size: usize) -> bool {
@@ -336,6 +373,7 @@ fn positional(cx: &mut Cx, name: &str, op: &Op, a: &mut BinArchive, m: &mut Mode
         Op::WriteString(ad, s) => {
             let ad = resolve(*ad, size);
             if let Some(Ok(())) = cx.call(|| a.write_string(ad, s.as_deref())) {
+                m.mirror.push(MOp::Str(ad, s.clone()));
                 match s {
                     Some(s) => {
                         m.text.insert(ad, s.clone());
@@ -357,6 +395,7 @@ fn positional(cx: &mut Cx, name: &str, op: &Op, a: &mut BinArchive, m: &mut Mode
         Op::WritePointer(ad, v) => {
             let ad = resolve(*ad, size);
             if let Some(Ok(())) = cx.call(|| a.write_pointer(ad, v.map(|x| x as usize))) {
+                m.mirror.push(MOp::Ptr(ad, v.map(|x| x as usize)));
                 match v {
                     Some(v) => {
                         m.ptrs.insert(ad, *v as usize);
@@ -364,6 +403,17 @@ fn positional(cx: &mut Cx, name: &str, op: &Op, a: &mut BinArchive, m: &mut Mode
                     None => {
                         m.ptrs.remove(&ad);
                     }
+                }
+            }
+        }
+        Op::WritePointerAsStored(ad) => {
+            let ad = resolve(*ad, size);
+            if in_range(ad, 4, size) {
+                let v = dec(m.be, Ty::U32, &m.data[ad..ad + 4]) as usize;
+                if let Some(Ok(())) = cx.call(|| a.write_pointer(ad, Some(v))) {
+                    m.mirror.push(MOp::Ptr(ad, Some(v)));
+                    m.ptrs.insert(ad, v);
+                    cx.label("pointer-equal-to-the-cell-value");
                 }
             }
         }
@@ -379,12 +429,14 @@ fn positional(cx: &mut Cx, name: &str, op: &Op, a: &mut BinArchive, m: &mut Mode
         Op::WriteLabel(ad, s) => {
             let ad = resolve(*ad, size);
             if let Some(Ok(())) = cx.call(|| a.write_label(ad, s)) {
+                m.mirror.push(MOp::Label(ad, s.clone()));
                 m.labels.entry(ad).or_default().push(s.clone());
             }
         }
         Op::WriteLabels(ad, names) => {
             let ad = resolve(*ad, size);
             if let Some(Ok(())) = cx.call(|| a.write_labels(ad, names.clone())) {
+                m.mirror.push(MOp::Labels(ad, names.clone()));
                 if names.is_empty() {
                     // an empty bucket is not observable through all_labels: the model keeps no entry for it
                     m.labels.remove(&ad);
@@ -397,24 +449,28 @@ fn positional(cx: &mut Cx, name: &str, op: &Op, a: &mut BinArchive, m: &mut Mode
         Op::DeleteString(ad) => {
             let ad = resolve(*ad, size);
             if let Some(Ok(())) = cx.call(|| a.delete_string(ad)) {
+                m.mirror.push(MOp::DelStr(ad));
                 m.text.remove(&ad);
             }
         }
         Op::DeletePointer(ad) => {
             let ad = resolve(*ad, size);
             if let Some(Ok(())) = cx.call(|| a.delete_pointer(ad)) {
+                m.mirror.push(MOp::DelPtr(ad));
                 m.ptrs.remove(&ad);
             }
         }
         Op::DeleteLabels(ad) => {
             let ad = resolve(*ad, size);
             if let Some(Ok(())) = cx.call(|| a.delete_labels(ad)) {
+                m.mirror.push(MOp::DelLabels(ad));
                 m.labels.remove(&ad);
             }
         }
         Op::DeleteLabel(ad, idx) => {
             let ad = resolve(*ad, size);
             if let Some(Ok(())) = cx.call(|| a.delete_label(ad, *idx as usize)) {
+                m.mirror.push(MOp::DelLabel(ad, *idx as usize));
                 if let Some(b) = m.labels.get_mut(&ad) {
                     if (*idx as usize) < b.len() {
                         b.remove(*idx as usize);
@@ -429,6 +485,13 @@ fn positional(cx: &mut Cx, name: &str, op: &Op, a: &mut BinArchive, m: &mut Mode
         Op::ReadCString(ad) => {
             let ad = resolve(*ad, size);
             let _ = cx.call(|| a.read_c_string(ad));
+        }
+        Op::WriteCString(ad, s) => {
+            let ad = resolve(*ad, size);
+            if let Some(Ok(())) = cx.call(|| a.write_c_string(ad, s.clone())) {
+                m.mirror.push(MOp::CStr(ad, s.clone()));
+                m.cstring_writes += 1;
+            }
         }
         _ => unreachable!(),
     }
@@ -611,6 +674,7 @@ fn writer_run(cx: &mut Cx, first: usize, ops: &[Op], a: &mut BinArchive, m: &mut
             }
             Op::WWriteString(s) => {
                 if let Some(Ok(())) = cx.call(|| w.write_string(s.as_deref())) {
+                    m.mirror.push(MOp::Str(m.wpos, s.clone()));
                     match s {
                         Some(s) => {
                             m.text.insert(m.wpos, s.clone());
@@ -624,6 +688,7 @@ fn writer_run(cx: &mut Cx, first: usize, ops: &[Op], a: &mut BinArchive, m: &mut
             }
             Op::WWritePointer(v) => {
                 if let Some(Ok(())) = cx.call(|| w.write_pointer(v.map(|x| x as usize))) {
+                    m.mirror.push(MOp::Ptr(m.wpos, v.map(|x| x as usize)));
                     match v {
                         Some(v) => {
                             m.ptrs.insert(m.wpos, *v as usize);
@@ -637,7 +702,16 @@ fn writer_run(cx: &mut Cx, first: usize, ops: &[Op], a: &mut BinArchive, m: &mut
             }
             Op::WWriteLabel(s) => {
                 if let Some(Ok(())) = cx.call(|| w.write_label(s)) {
+                    m.mirror.push(MOp::Label(m.wpos, s.clone()));
                     m.labels.entry(m.wpos).or_default().push(s.clone());
+                }
+            }
+            Op::WWriteCString(s) => {
+                if let Some(Ok(())) = cx.call(|| w.write_c_string(s.clone())) {
+                    m.mirror.push(MOp::CStr(m.wpos, s.clone()));
+                    m.cstring_writes += 1;
+                    m.wpos += 4;
+                    cx.label("stream-c-string-write");
                 }
             }
             _ => unreachable!(),
@@ -696,6 +770,8 @@ pub fn op_strategy() -> BoxedStrategy<Op> {
         1 => a().prop_map(Op::DeleteLabels),
         1 => (a(), 0u8..3).prop_map(|(x, i)| Op::DeleteLabel(x, i)),
         1 => a().prop_map(Op::ReadCString),
+        1 => (a(), archive_string()).prop_map(|(x, s)| Op::WriteCString(x, s)),
+        1 => a().prop_map(Op::WritePointerAsStored),
         3 => a().prop_map(Op::RSeek),
         1 => (0u8..6).prop_map(Op::RSkip),
         6 => ty_strategy().prop_map(Op::RRead),
@@ -712,6 +788,7 @@ pub fn op_strategy() -> BoxedStrategy<Op> {
         1 => proptest::option::weighted(0.8, archive_string()).prop_map(Op::WWriteString),
         1 => proptest::option::weighted(0.8, any::<u32>()).prop_map(Op::WWritePointer),
         1 => archive_string().prop_map(Op::WWriteLabel),
+        1 => archive_string().prop_map(Op::WWriteCString),
     ]
     .boxed()
 }
@@ -738,7 +815,7 @@ impl Prop for C04 {
          stream instance). Addresses and lengths come from a boundary palette: 0..=size+8, size+-8, 2^k+-3 for k in {16,31,32,33,63}, usize::MAX-{0..8}; values: random bits plus planted 0x01020304, quiet/signalling NaN payloads, +-inf, +-0, integer extremes. \
          Oracle (model = Vec<u8> + maps + two cursors): a typed access of width w>=1 at a succeeds iff a+w <= size (computed in u128), otherwise Err, never a panic; a successful write changes exactly [a,a+w) to the value's LE/BE byte layout computed \
          by the harness and the matching read returns the same bits; reads return the LE/BE meaning of the model bytes; annotation accessors never change the bytes and their Ok results equal the model; after EVERY call the whole state \
-         (all bytes, every cell's string/pointer, all labels) and both cursors are compared; stream calls equal the positional call at the cursor and advance it by exactly the width on success and not at all on failure (a failing slice call either changes nothing or has performed the u8 accesses that fitted); label accessors never move it. \
+         (all bytes, every cell's string/pointer, all labels) and both cursors are compared; stream calls equal the positional call at the cursor and advance it by exactly the width on success and not at all on failure (a failing slice call either changes nothing or has performed the u8 accesses that fitted); label accessors never move it; c-string writes (positional and stream), which cannot be read back before serialization, are decided by a positional twin: a second archive with the same bytes receives every successful annotation call of the history as the positional call at the modelled cursor, and both archives must serialize to identical bytes. \
          Bounded-exhaustive tier: every typed accessor (positional and stream) x every size 0..=12 x every palette address x both endiannesses; read_bytes x every palette address x every palette length. \
          Non-trivial: the case contains an access straddling the end, or an address >= 2^31, or a big-endian multi-byte write read back, or >= 3 interleaved stream/positional calls. Distinct = distinct case value."
             .into()
@@ -791,6 +868,13 @@ impl Prop for C04 {
                     }
                     // a bucket emptied by delete_label / write_labels(vec![]) and then read through every label accessor
                     if !emit(Case { big_endian: be, size, data_seed: 9, ops: vec![Op::WriteLabel(*ad, "l".into()), Op::DeleteLabel(*ad, 0), Op::RSeek(*ad), Op::RReadLabel(0), Op::RReadLabel(1), Op::RReadLabels, Op::ReadLabels(*ad), Op::WriteLabels(*ad, vec![]), Op::RReadLabel(0), Op::RReadLabels, Op::WSeek(*ad), Op::WWriteLabel("m".into()), Op::RReadLabel(0)] }) {
+                        return;
+                    }
+                    // stream c-string writes (two in a row, then a typed write that must land 8 bytes on) against their positional twin
+                    if !emit(Case { big_endian: be, size, data_seed: 9, ops: vec![Op::WSeek(*ad), Op::WWriteCString("c".into()), Op::WWriteCString("d".into()), Op::WWrite(Ty::U8, 0x5A), Op::WriteCString(A::Abs(0), "c".into())] }) {
+                        return;
+                    }
+                    if !emit(Case { big_endian: be, size, data_seed: 9, ops: vec![Op::WritePointerAsStored(*ad), Op::ReadPointer(*ad), Op::DeletePointer(*ad), Op::WritePointerAsStored(*ad), Op::WritePointer(*ad, None), Op::WSeek(*ad), Op::WritePointerAsStored(*ad), Op::WWritePointer(None)] }) {
                         return;
                     }
                     if !emit(Case { big_endian: be, size, data_seed: 9, ops: vec![Op::ReadString(*ad), Op::WriteString(*ad, Some("s".into())), Op::ReadPointer(*ad), Op::WritePointer(*ad, Some(0)), Op::WriteLabel(*ad, "l".into()), Op::ReadLabels(*ad), Op::ReadCString(*ad), Op::DeleteLabel(*ad, 0), Op::DeleteString(*ad), Op::DeletePointer(*ad), Op::DeleteLabels(*ad)] }) {
@@ -875,6 +959,49 @@ impl Prop for C04 {
             }
             if !compare(cx, &format!("after step {}", i.saturating_sub(1)), &a, &m) {
                 return;
+            }
+        }
+        // c-strings cannot be read back before serialization. "Stream writers behave exactly like the positional calls at their
+        // cursor": a twin archive with the same bytes receives every successful annotation call of this history as the positional
+        // call at the address the model says the cursor had; both must then serialize to the same bytes. Only the comparison is
+        // asserted - whether such an archive serializes at all (wild pointers) is not this property's business.
+        if m.cstring_writes > 0 {
+            let twin = panics::catch(|| {
+                let mut b = BinArchive::new(endian);
+                b.allocate_at_end(size);
+                if size > 0 {
+                    b.write_bytes(0, &m.data).map_err(|e| format!("write_bytes: {e}"))?;
+                }
+                for (k, op) in m.mirror.iter().enumerate() {
+                    op.apply(&mut b).map_err(|e| format!("mirrored call {k} {op:?}: {e}"))?;
+                }
+                Ok::<_, String>(b)
+            });
+            match twin {
+                Ok(Ok(b)) => {
+                    let sa = panics::catch(|| a.serialize());
+                    let sb = panics::catch(|| b.serialize());
+                    if let (Ok(Ok(x)), Ok(Ok(y))) = (&sa, &sb) {
+                        cx.label("c-string-history-compared-with-positional-twin");
+                        if !cx.check(x == y, "stream-equals-positional", || {
+                            let i = x.iter().zip(y.iter()).position(|(p, q)| p != q);
+                            format!("after the history, the archive and its positional twin ({:?}) serialize differently (lengths {} / {}, first difference at {:?})", m.mirror, x.len(), y.len(), i)
+                        }) {
+                            return;
+                        }
+                    } else if sa.as_ref().map(|r| r.is_ok()).unwrap_or(false) != sb.as_ref().map(|r| r.is_ok()).unwrap_or(false) {
+                        cx.fail("stream-equals-positional", format!("after the history only one of the archive and its positional twin ({:?}) serializes", m.mirror));
+                        return;
+                    }
+                }
+                Ok(Err(e)) => {
+                    cx.fail("stream-equals-positional", format!("a call that succeeded in the history fails as a positional call on the twin: {e}"));
+                    return;
+                }
+                Err(p) => {
+                    cx.record_panic(&p);
+                    return;
+                }
             }
         }
         let interleaved = (kinds_seen.0 as u8 + kinds_seen.1 as u8 + kinds_seen.2 as u8) >= 2 && ops.len() >= 3;
